@@ -5,6 +5,7 @@
   Only property theorems live here; generic comparator lemmas are in ILV.Lemmas.Order.
 -/
 import ILV.Lemmas.Order
+import ILV.Lemmas.ConsolidateC31
 namespace ILV.Props.C31
 open ILV
 
@@ -142,6 +143,37 @@ example : Value.WF (.f64 0) ∧ Value.WF (.f64 (2^63)) ∧ Value.WF (.f64 0x7ff8
 /-- and the laws are not vacuous on them: -0.0 < 0.0 < NaN, none of them `==` another. -/
 example : Value.cmp (.f64 (2^63)) (.f64 0) = .lt ∧ Value.cmp (.f64 0) (.f64 0x7ff8000000000000) = .lt ∧
     Value.eq (.f64 0) (.f64 (2^63)) = false ∧ Value.eq (.vec [0x7fc00000]) (.vec [0x7fc00000]) = true := by
+  decide
+
+/-- the tuple order is lawful (this is `C31_tuples` packaged for reuse). -/
+theorem tuple_lawful : LawfulOn (AllP Value.WF) Tuple.cmp := lex_lawful value_lawful
+
+/-- **C31, consumer of the order (consolidate.rs).** Because compare-equal and `==` coincide, sorting
+    by `cmp` and merging `==` neighbours computes the exact net multiplicity of *every* tuple, emits
+    no zero entries and no tuple twice — for all update lists. (On the pinned tree this failed for
+    signed-zero and NaN tuples; it is what recovery after restart relies on.) -/
+theorem C31_consolidate (l : List Upd) (hl : ∀ u ∈ l, AllP Value.WF u.data) :
+    (∀ t, sumFor t (consolidateToCurrent l) = sumFor t l) ∧
+    (∀ u ∈ consolidateToCurrent l, u.diff ≠ 0) ∧
+    (consolidateToCurrent l).Pairwise (fun a b => Tuple.cmp a.data b.data = .lt) := by
+  have hsorted := pairwise_stableSort leData (fun u => AllP Value.WF u.data)
+    (leData_total tuple_lawful) (leData_trans tuple_lawful) l hl
+  have hmem : ∀ u ∈ stableSort leData l, AllP Value.WF u.data :=
+    fun u hu => hl u ((mem_stableSort leData u l).1 hu)
+  have hsum : ∀ t, sumFor t (stableSort leData l) = sumFor t l := fun t => sumFor_stableSort leData t l
+  unfold consolidateToCurrent
+  cases hs : stableSort leData l with
+  | nil =>
+    rw [hs] at hsum
+    exact ⟨fun t => by simpa [sumFor] using hsum t, by simp, by simp⟩
+  | cons u us =>
+    rw [hs] at hsorted hmem hsum
+    have hu := hmem u (by simp)
+    have hus : WFU (AllP Value.WF) us := fun w hw => hmem w (by simp [hw])
+    obtain ⟨i1, i2, i3⟩ := mergeRun_spec tuple_lawful us u hu hus hsorted
+    exact ⟨fun t => by rw [i1 t, hsum t], fun w hw => (i2 w hw).1, i3⟩
+
+example : consolidateToCurrent [⟨[.f64 0], 1, 1⟩, ⟨[.f64 (2^63)], 2, 1⟩, ⟨[.f64 0], 3, -1⟩] = [⟨[.f64 (2^63)], 2, 1⟩] := by
   decide
 
 end ILV.Props.C31
